@@ -114,6 +114,17 @@ def check_url(col, fam, u, sa):
         if d:
             bad(clause, fn, {"lru": r[1], "url": back[1], "components": got.as_dict() if got else None}, want,
                 "differs: " + ",".join(d) + " | host: " + hk)
+        else:
+            if got.userinfo != exp.userinfo:
+                fam.observe("empty user / empty password / empty userinfo not kept ('u:@h' -> 'u@h', '@h' -> 'h')",
+                            {"url": u, "back": back[1]})
+            if got.host != exp.host:
+                fam.observe("host lower-cased (suffix_aware=True)", {"url": u, "back": back[1]})
+            elif sa and exp.host != exp.host.lower():
+                fam.observe("upper-case host NOT lower-cased although suffix_aware=True (no known suffix / special host)",
+                            {"url": u, "back": back[1]})
+            if (got.query, got.fragment) != (exp.query, exp.fragment):
+                fam.observe("empty query / fragment delimiter not kept ('h/?' -> 'h/', 'h/#' -> 'h/')", {"url": u, "back": back[1]})
         # second trip: url_to_lru of that result is the same LRU again
         if r_lru[0] == "ok" and isinstance(back[1], str):
             col.count("second-trip-same-lru")
@@ -268,10 +279,11 @@ def main():
                 col.notes.append("note: urllib.parse.urlsplit does not read this input like the reference parser")
             one = Families(keep=50)
             check_url(col, one, u, sa)
-            for k in sorted(one.best):
-                for _, _, v in one.best[k]:
-                    if rp.get("clause") in (None, v["clause"]):
-                        col.violation(v["clause"], v["function"], v["input"], v["observed"], v["expected"], v["note"])
+            found = [v for k in sorted(one.best) for _, _, v in one.best[k] if rp.get("clause") in (None, v["clause"])]
+            if any(v["function"] == rp.get("function") for v in found):
+                found = [v for v in found if v["function"] == rp.get("function")]
+            for v in found:
+                col.violation(v["clause"], v["function"], v["input"], v["observed"], v["expected"], v["note"])
         col.dump(a.out)
         return
     quick = a.tier == "quick"
